@@ -58,7 +58,7 @@ Definition wf_name (n : str) : bool := no_char colon n && no_char lbrace n && no
 
 Definition wf_tk (t : tk) : bool :=
   match t with
-  | TLit s => negb (has_prefix s [lbrace])
+  | TLit s => no_char lbrace s
   | TVar n => wf_name n
   | TRx n re => wf_name n && negb (str_eqb re (L "*"))
   | TSuf n suf => wf_name n && no_char colon suf && negb (str_eqb suf [])
@@ -267,7 +267,7 @@ Definition jsr_admits_path (w : service) (r : route) (p : str) : bool :=
 
 Definition jsr_wf_tk (t : tk) : bool :=
   match t with
-  | TLit s => negb (has_prefix s [lbrace]) && negb (str_eqb s [])
+  | TLit s => no_char lbrace s && negb (str_eqb s [])
   | TVar n => wf_name n
   | TRx n re => wf_name n && negb (str_eqb re (L "*"))
   | TSuf _ _ => false
